@@ -673,6 +673,9 @@ choose_len(Conn *c, int side, size_t maxn, bool wr)
 // off by default: the harness's own raw peers use plain write() on connections nng may already have closed, which is
 // their business; a scenario whose raw peers go through simnet_write_* turns it on (simnet_sigpipe_fatal(1))
 static bool g_sigpipe_fatal = false;
+// likewise opt-in: close() of a descriptor that is not open ends the run (scenarios whose own code closes each descriptor once)
+static bool g_ebadf_close_fatal = false;
+extern "C" void simnet_ebadf_close_fatal(int on) { g_ebadf_close_fatal = on != 0; }
 extern "C" void simnet_sigpipe_fatal(int on) { g_sigpipe_fatal = on != 0; }
 // ------------------------------------------------------------ stream io ---
 // EPIPE on a stream socket comes with SIGPIPE unless the call said MSG_NOSIGNAL (only send/sendmsg can), the
@@ -945,11 +948,18 @@ __wrap_close(int fd)
 		return __real_close(fd);
 	if (!is_sim_fd(fd)) {
 		sim_probe("ebadf_close");
+		if (g_ebadf_close_fatal)
+			sim_violation("C10", "descriptor_closed_twice",
+			    "close(%d): the descriptor is not open (any more) - the library closed a descriptor it had already "
+			    "released; had the number been handed out again in between, somebody else's connection would be gone",
+			    fd);
 		errno = EBADF;
 		return -1;
 	}
 	FdEnt *e = ent(fd);
 	sys_point(fd, 1);
+	if (getenv("SIM_DEBUG_CLOSE") != NULL)
+		sim_event("DBG close(%d) kind %d", fd, (int) e->kind);
 	switch (e->kind) {
 	case FK_SOCK:
 		sock_close((Sock *) e->obj);
